@@ -32,6 +32,7 @@ type World struct {
 	ctypes  []types.Type
 	tbn     map[string]types.Type
 	inn     map[*ssa.Global]bool
+	immut   map[*ssa.Global]bool
 }
 
 func verifDir() string {
